@@ -380,6 +380,14 @@ func (s *grpcServer) Write(srv bytestream.ByteStream_WriteServer) error {
 		for {
 			req, err := srv.Recv()
 			if err == io.EOF {
+				if firstIteration {
+					// The client closed the stream without sending any
+					// WriteRequest: there is no Put call whose result we
+					// could wait for.
+					recvResult <- status.Error(codes.InvalidArgument,
+						"stream closed before any WriteRequest was received")
+					return
+				}
 				if cmp == casblob.Identity && resp.CommittedSize != size {
 					msg := fmt.Sprintf("Unexpected amount of data read: %d expected: %d",
 						resp.CommittedSize, size)
